@@ -148,16 +148,21 @@ def pair_rule(run, f, rid):
                     from analysis.table import result_outcomes
                     w_ = PathWalker(b, max_paths=60000)
                     bad_ = None
+                    n_ex = n_inf = 0
                     for (pth, _c, sv) in w_.walk(0, lambda bid, t: ("return",) if t["k"] == "return" else None):
                         if sv[0] != "return":
                             continue
                         _oc, feas = result_outcomes(b, du, pth)
                         if not feas:
+                            n_inf += 1
                             continue
+                        n_ex += 1
                         ns = len([x for x in pth if x in succ])
                         nd = len([x for x in pth if x == decs[0][0]])
                         if ns != nd:
                             bad_ = "a path passes %d Steal::Success arm(s) and decrements %d time(s)" % (ns, nd)
+                    if not run.paths(rid, popfn + "/dec", b.loc(), n_ex, n_inf):
+                        bad_ = bad_ or "no feasible path examined"
                     ok = bad_ is None
                     why = bad_ or ""
                     if ok and decs[0][2] == "fetch_update":
@@ -285,15 +290,19 @@ def ascending_rule(run, f, rid):
             else:
                 from analysis.table import result_outcomes
                 w_ = PathWalker(b, max_paths=60000)
+                n_ex = n_inf = 0
                 for (pth, _c, sv) in w_.walk(0, lambda bid, t: ("return",) if t["k"] == "return" else None):
                     if sv[0] != "return":
                         continue
                     _oc, feas = result_outcomes(b, du, pth)
                     if not feas:
+                        n_inf += 1
                         continue
+                    n_ex += 1
                     hit = [i for i, x in enumerate(pth) if x in arms]
                     if hit and any(x == nb for x in pth[hit[0]:]):
                         why.append("a successful bucket pop does not return immediately (the scan continues to later priorities)")
+                run.paths(rid, fn + "/scan", b.loc(), n_ex, n_inf)
                 why = sorted(set(why))
                 # and the value returned on that arm is the popped one
                 lw = Linear(b, [], lambda c, t: c == inner, lambda c, t: None)
